@@ -1277,10 +1277,11 @@ Definition apply_filter (async : bool) (c : ctx) (f : fcall) (left : val) : res 
       | None => default_core left d
       end
   (* translate.py Translate.__call__ without plural/context, GetText.__call__:
-     keyword arguments only feed %-interpolation. *)
+     keyword arguments only feed %-interpolation (a keyword named `context` would
+     replace the render context the library binds: not modelled, known finding). *)
   | FT, args | FGettext, args =>
       if forallb (fun a => match a with
-                           | AKw k _ => negb (str_eqb k (lit "plural"))
+                           | AKw k _ => negb (str_eqb k (lit "plural")) && negb (str_eqb k (lit "context"))
                            | _ => false
                            end) args then
         do _ <- mapM (arg_val async c) args;;
